@@ -58,7 +58,8 @@ def lib_op(name: str | None):
         return None
     for p in NS_PREFIXES:
         if name.startswith(p):
-            return name[len(p):]
+            op = name[len(p):]
+            return "array" if op == "asarray" else op  # asarray / array: the same values (copy semantics are not modelled)
     if name.startswith("operator."):
         return name[len("operator."):]
     return None
@@ -588,6 +589,19 @@ def norm(t, _arith=True):  # noqa: C901, PLR0911, PLR0912
             and isinstance(t[2][0][1], str) and t[2][0][1].strip().lower() in ("nan", "inf", "+inf", "-inf", "infinity", "-infinity"):
         v = t[2][0][1].strip().lower()
         return NAN if v == "nan" else NEG_INF if v.startswith("-") else POS_INF
+    if tag == "call" and t[1] == ("glob", "builtins.len") and len(t[2]) == 1 and not t[3] and is_term(t[2][0]) \
+            and t[2][0][0] == "attr" and t[2][0][2] == "shape":
+        return ("attr", norm(t[2][0][1]), "ndim")  # len(x.shape) is x.ndim
+    if tag == "call" and t[1] == ("glob", "builtins.isinstance") and len(t[2]) == 2 and not t[3] and is_term(t[2][1]) \
+            and t[2][1][0] == "binop" and t[2][1][1] == "|":
+        # isinstance(x, A | B) is isinstance(x, (A, B))
+        def union(u):
+            return union(u[2]) + union(u[3]) if is_term(u) and u[0] == "binop" and u[1] == "|" else [u]
+        return norm(("call", t[1], (t[2][0], ("tuple", tuple(union(t[2][1])))), ()))
+    if tag == "call" and is_term(t[1]) and t[1][0] == "attr" and t[1][2] in ("tolist", "to_list") and not t[2] and not t[3] \
+            and is_term(t[1][1]) and t[1][1][0] == "attr" and t[1][1][2] == "values" \
+            and is_term(t[1][1][1]) and t[1][1][1][0] == "attr" and t[1][1][1][2] == "index":
+        return norm(("call", ("attr", t[1][1][1], "tolist"), (), ()))  # index.values.tolist() is index.tolist()
     if tag == "attr" and t[2] == "T" and len(t) == 3:
         # x.T is transpose(x) with the default axes
         return ("op", "transpose", (("a", norm(t[1])),), (), ())
